@@ -35,6 +35,47 @@ def shape_violation(rep, site, what, eager):
     rep.violation(site, f"{what}; real call gives {got}", {"site": site})
 
 
+def _bootstrap_bookkeeping(rep, sess, n_ens, n_boot, bs, rng, captured, pe):
+    """same obligations for a bootstrap size that is not a multiple of the batch size (incomplete last batch dropped)"""
+    def epoch_fn(boot, key):
+        captured.clear()
+
+        class M:
+            n_ensemble = n_ens
+
+        def fake_epoch(model, opt, X, Y, idx):
+            captured.append(idx)
+            return 0.0
+        with overlay(pe, train_epoch=fake_epoch, bootstrap=lambda *a, **k: boot):
+            pe.train_ensemble(M(), None, 1.0, jnp.zeros((n_boot, 1)), jnp.zeros((n_boot, 1)), 1, bs, key)
+        return captured[0]
+    boot0 = jnp.asarray(rng.integers(0, 9, size=(n_ens, n_boot)), dtype=jnp.int32)
+    e = E1(rep, sess, epoch_fn, (boot0, jax.random.key(1)), f"train_ensemble:index-bookkeeping[n_boot={n_boot},batch={bs}]")
+    out = S.SA(e.outs)
+    if tuple(out.shape) != (n_boot // bs, n_ens, bs):
+        shape_violation(rep, "train_ensemble:all-complete-batches-are-handed-to-the-trainer", f"index tensor of shape {tuple(out.shape)} instead of {(n_boot // bs, n_ens, bs)}",
+                        lambda: tuple(np.shape(epoch_fn(boot0, jax.random.key(1)))))
+        return
+    e.add_hyp(z3.Distinct(*S.SA(e.ins[0]).flat()))
+    nb = out.shape[0]
+
+    def own_rows(i, o):
+        o_, b_ = S.SA(o), S.SA(i[0])
+        goals = []
+        for m_ in range(n_ens):
+            elems = [o_[b, m_, k] for b in range(nb) for k in range(bs)]
+            for x in elems:
+                acc = False
+                for j in range(n_boot):
+                    acc = V.s_or(acc, x.eq(b_[m_, j]).item())
+                goals.append(acc)
+            for a in range(len(elems)):
+                for c in range(a + 1, len(elems)):
+                    goals.append(elems[a].ne(elems[c]))
+        return goals
+    e.obligation("each-member-trained-only-on-its-own-bootstrap-indices,-each-position-at-most-once-per-epoch", own_rows, site="train_ensemble:member-uses-only-own-bootstrap-indices")
+
+
 def main(tier, seed):
     from rl_blox.algorithm import pets, pets_reward_models
     from rl_blox.blox import probabilistic_ensemble as pe
@@ -131,8 +172,9 @@ def main(tier, seed):
     e.obligation("closed-form", lambda i, o: S.close(S.SA(o), (Fraction(1, 2) * (S.SA(i[0]) - S.SA(i[2])) ** 2 * S.exp(-S.SA(i[1]))).mean() + Fraction(1, 2) * S.SA(i[1]).mean()))
 
     # ---- bootstrap bookkeeping of train_ensemble (train_epoch stubbed, bootstrap = symbolic index matrix)
-    n_ens, n_boot, bs = 2, 4, 2
     captured = []
+    _bootstrap_bookkeeping(rep, sess, 2, 5, 2, rng, captured, pe)
+    n_ens, n_boot, bs = 2, 4, 2
 
     def epoch_fn(boot, key):
         captured.clear()
@@ -154,6 +196,9 @@ def main(tier, seed):
     e.check_reachable()
     out = S.SA(e.outs)
     nb = out.shape[0]
+    if tuple(out.shape) != (n_boot // bs, n_ens, bs):
+        shape_violation(rep, "train_ensemble:all-complete-batches-are-handed-to-the-trainer", f"index tensor of shape {tuple(out.shape)} instead of {(n_boot // bs, n_ens, bs)} for {n_boot} bootstrap indices and batch size {bs}",
+                        lambda: tuple(np.shape(epoch_fn(boot0, jax.random.key(1)))))
 
     def own_rows(i, o):
         o_ = S.SA(o)
